@@ -102,7 +102,8 @@ def _step_iv(state, op, t=None):
     elif op[1] == 1 and entries:
         target = Interval(entries[0][0], entries[0][1], entries[0][2] + "?")
     elif op[1] == 2 and entries:
-        target = Interval(entries[0][0], entries[0][1] + 0.25, entries[0][2])
+        # an entry that differs from a present one by MORE than the library's equality tolerance for entries (1e-9 relative)
+        target = Interval(entries[0][0], entries[0][1] + max(0.25, abs(entries[0][1]) * 2.0 ** -24), entries[0][2])
     else:
         return None, 0, "skip", None, viols
     st, r, out = call(t.deleteEntry, target)
@@ -284,6 +285,17 @@ def parts(tier):
     ps.append(BfsPart("insert-delete-points-ulp", lambda: upseeds, _ops_pt(ugrid), _step_pt,
                       rule="the same for equally labelled point tiers on the ulp-neighbour grid (deleteEntry must remove the point given)",
                       bounds={"depth": 1}, max_depth=1, prune=_prune))
+    bgrid = D.BIG
+    bseeds = [("I", "t", bgrid[0], bgrid[-1], D.labelled(x, labs)) for x in D.interval_sets(bgrid, 2 if quick else 3) for labs in ("abc", "a")
+              if len(x) > 1 or labs == "abc"]
+    ps.append(BfsPart("insert-delete-intervals-far-from-zero", lambda: bseeds, _ops_iv(bgrid), _step_iv,
+                      rule="one insertEntry / deleteEntry step from every tier of <=%d intervals (distinct labels, and all labels equal) on the dyadic grid "
+                           "2**40 + {0, 2**-7, 0.25, 0.5, 1, 2, 3, 4}: at this magnitude entries 0.25 s apart are 'equal' under a 1e-9 relative tolerance, "
+                           "but only the colliding entries may be touched" % (2 if quick else 3), bounds={"depth": 1}, max_depth=1, prune=_prune))
+    bpseeds = [("P", "t", bgrid[0], bgrid[-1], D.labelled_points(x, labs)) for x in D.point_sets(bgrid, 3) for labs in ("xyz", "x")]
+    ps.append(BfsPart("insert-delete-points-far-from-zero", lambda: bpseeds, _ops_pt(bgrid), _step_pt,
+                      rule="the same for point tiers (<=3 points, distinct and equal labels) on the far-from-zero grid", bounds={"depth": 1}, max_depth=1,
+                      prune=_prune))
     live_iv = [("I", "t", 0.0, 4.0, ()), ("I", "t", 0.0, 4.0, ((1.0, 2.0, "a"),)), ("I", "t", 0.0, 4.0, ((0.0, 1.0, "a"), (1.0, 3.0, "b")))]
     live_vals = (-1.0, 0.0, 0.5, 1.0, 2.0, 3.0, 5.0)
     ps.append(InputPart("live-sequences-intervals", lambda: ((s0, op1) for s0 in live_iv for op1 in _ops_iv(live_vals)(s0)),
